@@ -79,6 +79,11 @@ CHECKS["C12"] = dict(
     text="Exhaustive over 1250 layout-name assignments (set / language / caption / node, plain or styled) and over a grid exhaustive in None-ness of the four layout parts, the 23 alignment pairs and padding values at four attachment levels; WebVTT align / position / line / size arithmetic on the same grid, multi-layout captions (1-3 cues) and verbatim raw cue settings; random two-decimal values beyond. One open known finding (plain TEXT node layouts) is re-validated with exactly that deviation enabled.",
     design="4 C12")
 
+CHECKS["C14"] = dict(
+    technique="TLA+ spec Langs.tla: TLC checks the SAMI writer's sync-placement design model (primary appends, secondary find / insert-after-earlier / insert-before-later) against SortedBody and Faithful on every small multi-language set (MC_Langs) and judges independently scanned SAMI / DFXP output, read-back sets, language options and DFXP xml:lang fallback (Trace_Langs)",
+    text="Exhaustive over all 2-language sets with <= 2 cues per language on a 4-point grid (quick) / a 20 000-case sample of the 3-language space on a 5-point grid (thorough; the design model is checked on all 475 000), empty first language included; every set written by SAMIWriter and DFXPWriter, scanned independently and read back; language options on a sample; 48 DFXP documents with xml:lang on div / tt / absent under two configured defaults in child processes; SAMI reading with languages declared by class or lang attribute; random 1-4 language sets beyond. Two open known findings (SAMI lang attribute truncation, prefix-matching selector).",
+    design="4 C14")
+
 NOT_YET = {}
 
 
